@@ -57,11 +57,13 @@ PROPS = {
             {"name": "type_universe_distinct_and_stable", "bin": "replay_c14", "crate": "replay", "twice": True,
              "pre": "python3 lib/gen_c14_universe.py out/aux/c14_universe.rs", "tiers": ("quick", "thorough"),
              "bound": "6006 types of a generated constructor-closed universe (all unary constructors over all leaves, nestings to depth 3, binary constructors in both argument orders, permuted tuples, array lengths, derived user types): ids evaluated on the real crate, pairwise distinct, identical in two separate processes"},
+            {"name": "store_slots_by_type_id", "bin": "replay_c14_store", "crate": "replay_db", "release": False, "tiers": ("quick", "thorough"), "thorough_seeds": 1,
+             "bound": "the REAL RocksDB and Fjall backends: 24 column types with crafted stable type ids whose renderings are easy to confuse (leading-zero halves, digits moving between the 64-bit halves, swapped / zero halves, prefixes of one another), both column kinds: each column holds its own index, read back in the same session and after a reopen (column-family / keyspace names are derived from the id by format!: not under contract)"},
         ],
         "witness": witness.c14,
         "assumptions": [
             "NOT decided deductively: 'distinct types receive distinct ids' is a collision property of a 256->128 bit mixer (combine) and of a string hash (from_unique_type_name); no sound contract states it (pigeonhole). It is checked only on the bounded universe above (labelled bounded, not counted as proved)",
-            "proved (Verus, all inputs): from_unique_type_name / combine / sipround / read_u64_le are total -- no out-of-bounds index, no overflow, no shift >= 64 -- and use no external or unsafe ingredient, hence are pure functions of their arguments; StableTypeID <-> u128, u128 <-> Compact128, QueryID accessors are lossless",
+            "proved (Verus, all inputs): read_u64_le returns exactly the little-endian value of its 8-byte block (arithmetic definition; distinct blocks give distinct words: lemma_le_word_injective); from_unique_type_name / combine / sipround / read_u64_le are total -- no out-of-bounds index, no overflow, no shift >= 64 -- and use no external or unsafe ingredient, hence are pure functions of their arguments; StableTypeID <-> u128, u128 <-> Compact128, QueryID accessors are lossless",
             "64-bit usize; strings are at most isize::MAX bytes (Rust invariant)",
             "not under contract: the Identifiable impl table itself (hundreds of const items), identifiable_derive, cf_name_from_id / keyspace_name_from_id (format!), Query::STABLE_TYPE_ID plumbing in the engine, QueryID::new (associated const: only its composition is a lemma)",
         ],
@@ -100,11 +102,15 @@ PROPS = {
         ],
     },
     "C10": {
-        "verus": ["c10_writebehind", "c10_coalesce"],
+        # c11_rocksdb / c11_fjall: the kernel ASSUMES `KvWriteBatch::commit` hands everything consumed to the store; that the two
+        # shipped backends' `commit` (and `consume_serialization_buffer`) do is an obligation of those units, re-established here
+        "verus": ["c10_writebehind", "c10_coalesce", "c11_rocksdb", "c11_fjall"],
         "kani": [],
         "native": [
             {"name": "store_equals_batches_in_creation_order", "bin": "replay_c10", "crate": "replay", "tiers": ("quick", "thorough"),
-             "bound": "24 directed late-first histories + 400 seeded random histories: 1..9 batches of 0..5 operations (wide-column put/delete and key-of-set insert/remove over 1..3 keys x 1..3 elements, so that one batch often stages several operations on one slot), submitted out of creation order from 1..3 threads, 1..4 serializer workers, random serialization delays and physical grouping; after drop the recording store must equal applying the batches in creation order, each exactly once (real code, native execution, thread schedule not controlled)"},
+             "bound": "24 directed late-first histories + 4 directed drop-during-panic-unwinding histories + 400 seeded random histories: 1..9 batches of 0..5 operations (wide-column put/delete and key-of-set insert/remove over 1..3 keys x 1..3 elements, so that one batch often stages several operations on one slot), submitted out of creation order from 1..3 threads, 1..4 serializer workers, random serialization delays and physical grouping; after drop the recording store must equal applying the batches in creation order, each exactly once (real code, native execution, thread schedule not controlled)"},
+            {"name": "real_backends_behind_the_real_write_manager", "bin": "replay_c10_db", "crate": "replay_db", "release": False, "tiers": ("quick", "thorough"), "thorough_seeds": 6,
+             "bound": "the real WriteBehind in front of the REAL RocksDB and Fjall: 9 manager lifetimes per store and seed (mixed traffic, lifetimes that ONLY remove, a unit-keyed unit-discriminant column whose encoded key is empty), 1..3 serializer workers; after every lifetime the store is closed, reopened and read through a fresh engine: it must hold exactly the batches applied in creation order"},
         ],
         "witness": witness.c10,
         "assumptions": [
